@@ -130,8 +130,42 @@ def LArrow.slice (a : LArrow) (start stop : Option Int) : Except Err LArrow :=
   | [] => a.sliceEmpty start
   | b :: bs => .ok ⟨b.dom, ((b :: bs).getLastD b).cod, b :: bs⟩
 
+/-- Normalised bound of a Python slice with step `-1` (CPython `PySlice_AdjustIndices`):
+    the result lies in `[-1, n-1]`. -/
+def pyIdxRev (n : Nat) (i : Int) : Int :=
+  if i < 0 then (if i + n < 0 then -1 else i + n) else (if i ≥ n then (n : Int) - 1 else i)
+
+def revLo (n : Nat) : Option Int → Int
+  | none => (n : Int) - 1
+  | some i => pyIdxRev n i
+def revHi (n : Nat) : Option Int → Int
+  | none => -1
+  | some i => pyIdxRev n i
+
+/-- `xs[start:stop:-1]`: elements at indices `start, start-1, …, stop+1`. -/
+def pySliceRev {α} (xs : List α) (start stop : Option Int) : List α :=
+  ((xs.drop (revHi xs.length stop + 1).toNat).take
+    (revLo xs.length start - revHi xs.length stop).toNat).reverse
+
+/-- Empty reversed slice starting at normalised index `s`: the identity where it starts. -/
+def LArrow.idAfter (a : LArrow) (s : Int) : Except Err LArrow :=
+  if s < 0 then .ok ⟨a.dom, a.dom, []⟩
+  else match a.boxes[s.toNat]? with
+    | some l => .ok ⟨l.cod, l.cod, []⟩
+    | none => .error .index
+
+/-- `arrow[start:stop:-1]`, cat.py:216-224 (after the `fix:` commit for finding F16: dom/cod are
+    read off the reversed boxes; an empty reversed slice is the identity where it starts). -/
+def LArrow.sliceRevEmpty (a : LArrow) (start : Option Int) : Except Err LArrow :=
+  a.idAfter (revLo a.boxes.length start)
+
 /-- `arrow[::-1]`, cat.py:216-219. -/
 def LArrow.dag (a : LArrow) : LArrow := ⟨a.cod, a.dom, a.boxes.reverse.map Layer.dag⟩
+
+def LArrow.sliceRev (a : LArrow) (start stop : Option Int) : Except Err LArrow :=
+  match (pySliceRev a.boxes start stop).map Layer.dag with
+  | [] => a.sliceRevEmpty start
+  | b :: bs => .ok ⟨b.dom, ((b :: bs).getLastD b).cod, b :: bs⟩
 
 /-- monoidal.py:287-354: the five fields a diagram carries. -/
 structure Diagram where
